@@ -717,6 +717,246 @@ def replay_volume(stages):
     return 1 if c.v else 0
 
 
+# ---------------------------------------------------------------------------------------------
+# Caller-owned argument containers reused across calls and mutated in place in between
+# (C14-F class): ONE dict object per history for `subs` (and one for `interpretations`); the
+# expected answer of each call is computed from the container's CURRENT content by a brand-new
+# substituter with a brand-new dict in another environment.
+# ---------------------------------------------------------------------------------------------
+
+MUTATIONS = ("none", "replace_value", "key_swap", "grow", "shrink", "clear_refill", "replace_all_values")
+
+
+def _same_sort_pool(env, nodes, rows):
+    """sort name -> candidate keys (symbols) and values (symbols, constants, small terms)."""
+    pool = {}
+    for n, r in zip(nodes, rows):
+        if n is None:
+            continue
+        if r[0] == "sym":
+            pool.setdefault(r[2], {"keys": [], "vals": []})
+            pool[r[2]]["keys"].append(n)
+            pool[r[2]]["vals"].append(n)
+    m = env.formula_manager
+    from fractions import Fraction
+    if "int" in pool:
+        pool["int"]["vals"] += [m.Int(0), m.Int(7), m.Plus(pool["int"]["keys"][0], m.Int(1))]
+    if "bool" in pool:
+        pool["bool"]["vals"] += [m.TRUE(), m.Not(pool["bool"]["keys"][0])]
+    if "bv" in pool:
+        pool["bv"]["vals"] += [m.BV(3, 8)]
+    if "real" in pool:
+        pool["real"]["vals"] += [m.Real(Fraction(1, 2))]
+    if "str" in pool:
+        pool["str"]["vals"] += [m.String("a")]
+    return pool
+
+
+def _mutate(rnd, kind, d, pool_items):
+    """In-place mutation of the caller's dict d: {key index -> value index} level description is
+    returned so that the reference side can rebuild the content; pool_items: list of (sort, keys, vals)."""
+    def fresh_pair(exclude):
+        for _ in range(20):
+            srt, keys, vals = rnd.choice(pool_items)
+            k = rnd.choice(keys)
+            if k not in exclude:
+                v = rnd.choice([x for x in vals if x is not k] or vals)
+                return k, v
+        return None
+    if kind == "replace_value" and d:
+        k = rnd.choice(sorted(d, key=lambda x: x.node_id()))
+        srt = [it for it in pool_items if k in it[1]][0]
+        d[k] = rnd.choice([x for x in srt[2] if x is not k and x is not d[k]] or srt[2])
+    elif kind == "replace_all_values":
+        for k in sorted(d, key=lambda x: x.node_id()):
+            srt = [it for it in pool_items if k in it[1]][0]
+            d[k] = rnd.choice([x for x in srt[2] if x is not k and x is not d[k]] or srt[2])
+    elif kind == "key_swap" and d:
+        kv = fresh_pair(d)
+        if kv:
+            del d[rnd.choice(sorted(d, key=lambda x: x.node_id()))]
+            d[kv[0]] = kv[1]
+    elif kind == "grow":
+        kv = fresh_pair(d)
+        if kv:
+            d[kv[0]] = kv[1]
+    elif kind == "shrink" and d:
+        del d[rnd.choice(sorted(d, key=lambda x: x.node_id()))]
+    elif kind == "clear_refill" and d:
+        keys = sorted(d, key=lambda x: x.node_id())
+        d.clear()
+        for k in keys:
+            srt = [it for it in pool_items if k in it[1]][0]
+            d[k] = rnd.choice([x for x in srt[2] if x is not k] or srt[2])
+
+
+def container_history(chk, hseed, which="MG", report=True):
+    """One history on one long-lived substituter with ONE subs dict and ONE interpretations dict."""
+    from pysmt.environment import Environment
+    import pysmt.substituter as sb
+    rnd = random.Random(hseed)
+    rows = walkgen.gen_recipe(rnd, rnd.choice([10, 14, 18]), sorts=("bool", "int", "bv", "real"), quant=rnd.random() < 0.3)
+    env, ref = Environment(), Environment()
+    nodes, rnodes = walkgen.build(env, rows), walkgen.build(ref, rows)
+    back = dict((n, rn) for n, rn in zip(nodes, rnodes))       # env node -> the same node in the reference environment
+
+    def to_ref(f):
+        """Rebuild an env formula in the reference environment (values may be small new terms)."""
+        if f in back:
+            return back[f]
+        rm = ref.formula_manager
+        if f.is_constant() and not f.args():
+            r = rm.create_node(f.node_type(), (), f._content.payload)
+        else:
+            r = rm.create_node(f.node_type(), tuple(to_ref(a) for a in f.args()), f._content.payload)
+        back[f] = r
+        return r
+    pool = _same_sort_pool(env, nodes, rows)
+    items = [(srt, v["keys"], v["vals"]) for srt, v in sorted(pool.items())]
+    sub = env.substituter if which == "MG" else sb.MSSubstituter(env)
+    subs = {}                       # THE caller's dict, one object for the whole history
+    interp = {}                     # THE caller's interpretations dict
+    ffs = [n for n in nodes if n is not None and n.is_function_application()]
+    for _ in range(rnd.choice([1, 2, 3])):
+        _mutate(rnd, "grow", subs, items)
+    bools = [i for i, n in enumerate(nodes) if n is not None and env.stc.get_type(n).is_bool_type() and n.args()]
+    terms = [i for i, n in enumerate(nodes) if n is not None and n.args()]
+    if not bools:
+        return None
+    root = bools[-1]
+    steps, diffs = [], []
+    use_interp = bool(ffs) and rnd.random() < 0.5
+    same_for_both = rnd.random() < 0.08
+    for k in range(rnd.choice([4, 6, 8])):
+        kind = "none" if k == 0 else rnd.choice(MUTATIONS)
+        before = walkgen.canon_value(subs)
+        _mutate(rnd, kind, subs, items)
+        if use_interp and k > 0 and rnd.random() < 0.5:
+            f0 = ffs[0].function_name()
+            x = env.formula_manager.Symbol("ci_x", f0.symbol_type().param_types[0])
+            body = rnd.choice([env.formula_manager.Plus(x, env.formula_manager.Int(rnd.randrange(5))), x, env.formula_manager.Times(x, env.formula_manager.Int(2))])
+            interp[f0] = sb.FunctionInterpretation([x], body)        # size-preserving after the first time
+            kind += "+interpretation replaced"
+        # alternate between a sub-formula and a formula containing it
+        i = root if k % 2 else rnd.choice(terms[-6:] + bools[-3:])
+        f = nodes[i]
+        a_subs, a_int = (subs, interp if use_interp else None)
+        if same_for_both and not subs:
+            a_int = subs           # the same (empty) object for both parameters
+        got = ("ok", None)
+        try:
+            got = ("ok", walkgen.canon(sub.substitute(f, a_subs, a_int) if a_int is not None else sub.substitute(f, a_subs)))
+        except Exception as ex:        # noqa
+            got = ("raise", type(ex).__name__)
+        # reference: the container's CURRENT content, new dicts, new substituter, other environment
+        rsubs = dict((to_ref(kk), to_ref(vv)) for kk, vv in subs.items())
+        rint = None
+        if a_int is not None:
+            rint = dict((to_ref(kk), sb.FunctionInterpretation([to_ref(p_) for p_ in vv.formal_params], to_ref(vv.function_body))) for kk, vv in interp.items()) if a_int is interp else {}
+        rsub = (sb.MGSubstituter if which == "MG" else sb.MSSubstituter)(ref)
+        try:
+            exp = ("ok", walkgen.canon(rsub.substitute(to_ref(f), rsubs, rint) if rint is not None else rsub.substitute(to_ref(f), rsubs)))
+        except Exception as ex:        # noqa
+            exp = ("raise", type(ex).__name__)
+        steps.append("%s the caller's dict in place: %s -> %s; substitute(row %d = %s, <that dict>)" % (
+            {"none": "(no change to)"}.get(kind, kind), before[:160], walkgen.canon_value(subs)[:160], i, walkgen.canon(f)[:160]))
+        chk.count(("container", which, hseed, k))
+        if got != exp:
+            diffs.append({"step": k, "mutation": kind, "got": list(got), "expected_from_current_content": list(exp)})
+            break
+    if diffs and report:
+        chk.violation({"kind": "history", "what": "substitute() with a caller-owned dict that was mutated in place between the calls answers from the dict's EARLIER content "
+                       "(%s substituter, step %d, mutation %s)" % (which, diffs[0]["step"], diffs[0]["mutation"]),
+                       "history": steps, "differences": diffs, "recipe": rows, "repro": "harness.c14.replay_container(%d, %r)" % (hseed, which)},
+                      key="container:substitute:%s:%s" % (which, diffs[0]["mutation"].split("+")[0]))
+    return diffs
+
+
+def replay_container(hseed, which):
+    warnings.simplefilter("ignore")
+    c = _MiniChk()
+    container_history(c, hseed, which)
+    return 1 if c.v else 0
+
+
+def eager_model_histories(chk, rnd, count):
+    """EagerModel(assignment) copies the caller's dict (solvers/eager.py: `dict(assignment)`): a
+    model is a SNAPSHOT.  After the caller mutates its dict in place (every mutation kind) the
+    model must answer as before, and get_value / iteration / satisfies must stay consistent."""
+    from pysmt.environment import Environment
+    from pysmt.solvers.eager import EagerModel
+    for h in range(count):
+        env = Environment()
+        m = env.formula_manager
+        from pysmt.typing import INT, BOOL
+        xs = [m.Symbol("mx%d" % k, INT) for k in range(4)]
+        bs = [m.Symbol("mb%d" % k, BOOL) for k in range(2)]
+        assign = dict((x, m.Int(rnd.randrange(-3, 9))) for x in xs[:3])
+        assign[bs[0]] = m.Bool(rnd.random() < 0.5)
+        model = EagerModel(assignment=assign, environment=env)
+        queries = [m.Plus(xs[0], xs[1]), m.LT(xs[0], m.Times(xs[2], m.Int(2))), m.And(bs[0], m.LE(xs[1], xs[2])), xs[3], m.Ite(bs[1], xs[0], xs[3])]
+        import pysmt.environment as pe
+        pe.push_env(env)
+        try:
+            def snapshot():
+                vals = [walkgen.canon(model.get_value(q)) for q in queries]
+                it = sorted((walkgen.canon(k), walkgen.canon(v)) for k, v in model)
+                byget = sorted((walkgen.canon(k), walkgen.canon(model.get_value(k))) for k, _ in model)
+                sat = model.satisfies(m.And([m.EqualsOrIff(k, v) for k, v in model]))
+                return vals, it, byget, sat
+            first = snapshot()
+            kind = rnd.choice(MUTATIONS[1:])
+            if kind in ("replace_value", "replace_all_values", "clear_refill"):
+                for k in list(assign):
+                    if k.symbol_type().is_int_type():
+                        assign[k] = m.Int(100 + rnd.randrange(9))
+            elif kind == "key_swap":
+                del assign[xs[0]]
+                assign[xs[3]] = m.Int(55)
+            elif kind == "grow":
+                assign[xs[3]] = m.Int(55)
+            else:
+                del assign[xs[1]]
+            second = snapshot()
+        finally:
+            pe.pop_env()
+        chk.count(("eager-model", h, kind))
+        if first != second or first[1] != first[2] or first[3] is not True:
+            chk.violation({"kind": "history", "what": "an EagerModel changed (or is inconsistent) after the caller mutated, in place, the dict it was built from (%s): a model "
+                           "is a snapshot of its assignment" % kind, "history": ["model = EagerModel(assign)", "queries", "%s on assign" % kind, "same queries"],
+                           "before": [str(x)[:300] for x in first], "after": [str(x)[:300] for x in second]}, key="container:eager-model:%s" % kind)
+
+
+def parser_stream_histories(chk, rnd, count):
+    """One StringIO object reused for several scripts (rewritten in place between the calls)."""
+    from pysmt.environment import Environment
+    from pysmt.smtlib.parser import SmtLibParser
+    scripts = ["(declare-fun a () Int)\n(declare-fun b () Int)\n(assert (< a b))\n", "(declare-fun a () Int)\n(assert (< a 3))\n(assert (> a 1))\n",
+               "(declare-fun p () Bool)\n(declare-fun a () Int)\n(assert (=> p (= a 2)))\n", "(declare-fun a () Int)\n(declare-fun b () Int)\n(assert (< b a))\n"]
+
+    def parse(p, stream):
+        return [(c.name, [walkgen.canon_value(a) if hasattr(a, "node_id") else str(a) for a in c.args]) for c in p.get_script(stream).commands]
+    for h in range(count):
+        env = Environment()
+        p = SmtLibParser(environment=env)
+        buf = io.StringIO()
+        hist = []
+        for k in range(3):
+            txt = rnd.choice(scripts)
+            buf.seek(0)
+            buf.truncate()
+            buf.write(txt)
+            buf.seek(0)
+            got = parse(p, buf)
+            exp = parse(SmtLibParser(environment=Environment()), io.StringIO(txt))
+            hist.append(txt)
+            chk.count(("parser-stream", h, k))
+            if got != exp:
+                chk.violation({"kind": "history", "what": "parsing from a stream object that was rewritten in place gives another script than parsing its current text",
+                               "history": hist, "got": str(got)[:400], "expected": str(exp)[:400]}, key="container:parser-stream")
+                break
+
+
 def run(tier):
     chk = lib.Check("C14", tier)
     rnd = random.Random(chk.seed)
@@ -753,6 +993,17 @@ def run(tier):
     vol = [volume_history(chk, rnd) for _ in range(1 if tier == "quick" else 3)]
     chk.cov["volume_histories"] = {"count": len(vol), "distinct_nodes_through_each_walker": vol, "stages": "after > 2^16 and after > 2^17 distinct nodes",
                                    "seconds": round(time.time() - tv, 1)}
+    nc = 400 if tier == "quick" else 4000
+    hits = {}
+    for h in range(nc):
+        for which in ("MG", "MS"):
+            d = container_history(chk, chk.seed * 100003 + h, which)
+            if d:
+                hits[d[0]["mutation"]] = hits.get(d[0]["mutation"], 0) + 1
+    eager_model_histories(chk, rnd, 40 if tier == "quick" else 400)
+    parser_stream_histories(chk, rnd, 20 if tier == "quick" else 200)
+    chk.cov["container_histories"] = {"substitute": 2 * nc, "mutations": list(MUTATIONS), "eager_model": 40 if tier == "quick" else 400,
+                                      "parser_stream": 20 if tier == "quick" else 200, "failing_by_mutation": hits}
     sort_aliasing(chk)
     binder_arg_histories(chk, rnd, 512 if tier == "quick" else 4096)
 
